@@ -5,16 +5,14 @@ The model (`Model/TextParse.lean` over `Model/ParseCore.lean`) has every raising
 fuel (`PyErr.timeout` when it runs out).  The theorems hold for EVERY input string and EVERY choice of the number
 parameters `pyInt`/`pyFloat` (CPython `int()`/`float()` raise only ValueError; nothing else about them is used).
 
-The full statement "`.ok _` or `.error .valueError`" is false on the unchanged tree; two inputs classes escape:
-* F8   — a metadata line whose third token is non-empty but strips to nothing (non-ASCII whitespace: U+00A0,
-         U+001C–U+001F, U+0085, U+2028 …): `_unquote_unescape` indexes `text[0]` after `text.strip()` → IndexError.
-         Witnesses: `f8_help_index_error`, `f8_type_index_error`.
-* F19  — a timestamp token that `int()` reads as an integer of magnitude ≥ (2^1024 − 2^970)·1000 (312+ digits):
-         `_parse_value(values[-1]) / 1000` → `OverflowError: integer division result too large for a float`.
-         Witness: `ts_overflow_error`.
-`text_parser_outcomes` is unconditional and says these are the only two; `text_parser_total_partial` is the totality
-statement under exactly the two hypotheses; `text_parser_no_timeout` (termination: the fuel always suffices) and
-"no KeyError / TypeError / AttributeError / RuntimeError …" are unconditional.
+Two defects found while proving this were repaired in /repo, and the proof now depends on the repairs:
+* F8  — a metadata line whose third token is non-empty but strips to nothing (U+00A0, U+001C–U+001F, U+0085, U+2028 …)
+        made `_unquote_unescape` index `text[0]` of an empty string (IndexError).  It now strips first and returns on an
+        empty result (the shared model `ParseCore.unquoteUnescape` follows the code; function-level correspondence).
+* F19 — a timestamp token that `int()` reads as an integer of magnitude ≥ (2^1024 − 2^970)·1000 made
+        `_parse_value(values[-1]) / 1000` raise OverflowError.  The division now sits in
+        `try … except OverflowError: raise ValueError`; the presence of that handler is re-extracted from the source on
+        every run (`Generated.TextParse.tsOverflowToValueError`) and `text_parser_total` stops checking without it.
 -/
 import PromVerif.Model.TextParse
 import PromVerif.Lemmas.TextParseTotal
@@ -23,84 +21,64 @@ namespace PromVerif.Props.C14Text
 open PromVerif.Py PromVerif.Model.ParseCore PromVerif.Model.TextParse PromVerif.Lemmas.TextTotal
 open PromVerif.Lemmas.TextParse PromVerif.Lemmas.Scanner
 
-/-- **all outcomes of the text parser**, for every input and every `int()`/`float()`: families, ValueError, IndexError
-only if some line is an F8 line, OverflowError only if `int()` returned an integer too large for `/ 1000` -/
-theorem text_parser_outcomes (legacy : Bool) (pyInt : Str → Option Int) (pyFloat : Str → Option Nat) (input : Str) :
-    ∀ e, textParse legacy pyInt pyFloat input = .error e →
-      e = .valueError ∨ (e = .indexError ∧ ∃ l ∈ splitLines input, blankMetaToken l = true) ∨
-      (e = .overflowError ∧ HugeInt pyInt) :=
-  err3_textParse legacy pyInt pyFloat input
+/-- the extractor found `_parse_value_and_timestamp` in the shape it understands -/
+theorem extract_ok : PromVerif.Generated.TextParse.extractOk = true := by decide
 
-/-- **termination**: the fuel of the model's loops always suffices — for every input, unconditionally -/
-theorem text_parser_no_timeout (legacy : Bool) (pyInt : Str → Option Int) (pyFloat : Str → Option Nat) (input : Str) :
-    textParse legacy pyInt pyFloat input ≠ .error .timeout := by
-  intro h
-  rcases text_parser_outcomes legacy pyInt pyFloat input _ h with h | ⟨h, _⟩ | ⟨h, _⟩ <;> cases h
-
-/-- no exception class other than ValueError, IndexError, OverflowError ever escapes (no KeyError from
-`labels['__name__']`, no TypeError from unpacking, no AttributeError …) — unconditionally -/
-theorem text_parser_no_other_class (legacy : Bool) (pyInt : Str → Option Int) (pyFloat : Str → Option Nat) (input : Str)
-    (e : PyErr) (h : textParse legacy pyInt pyFloat input = .error e) :
-    e = .valueError ∨ e = .indexError ∨ e = .overflowError := by
-  rcases text_parser_outcomes legacy pyInt pyFloat input _ h with h | ⟨h, _⟩ | ⟨h, _⟩
-  · exact Or.inl h
-  · exact Or.inr (Or.inl h)
-  · exact Or.inr (Or.inr h)
-
-/-- **totality of the text parser** under the hypotheses the findings force (full statement: no hypotheses).
-PARTIAL: missing exactly (F8) "no metadata line whose third token is non-empty and strips to nothing" and (F19) "`int()`
-never returns an integer whose division by 1000 overflows a double"; both are false for the unchanged code. -/
-theorem text_parser_total_partial (legacy : Bool) (pyInt : Str → Option Int) (pyFloat : Str → Option Nat) (input : Str)
-    (hF8 : ∀ l ∈ splitLines input, blankMetaToken l = false)
-    (hOvf : ∀ s n, pyInt s = some n → intDivOverflows n = false) :
+/-- **totality of the text parser**: for every input string and every `int()`/`float()`,
+`list(text_string_to_metric_families(input))` yields families or raises ValueError — no other class, no timeout -/
+theorem text_parser_total (legacy : Bool) (pyInt : Str → Option Int) (pyFloat : Str → Option Nat) (input : Str) :
     (∃ fams, textParse legacy pyInt pyFloat input = .ok fams) ∨
       textParse legacy pyInt pyFloat input = .error .valueError := by
   cases h : textParse legacy pyInt pyFloat input with
   | ok fams => exact Or.inl ⟨fams, rfl⟩
-  | error e =>
-    right
-    rcases text_parser_outcomes legacy pyInt pyFloat input e h with h' | ⟨_, l, hl, hb⟩ | ⟨_, s, n, hs, hn⟩
-    · rw [h']
-    · rw [hF8 l hl] at hb; cases hb
-    · rw [hOvf s n hs] at hn; cases hn
+  | error e => right; rw [safe_textParse legacy pyInt pyFloat input e h]
 
-/-- non-vacuity of `text_parser_total_partial`: a document with HELP/TYPE lines, quoted name, labels, timestamp satisfies
-the F8 hypothesis, and bounded `int()` results satisfy the overflow hypothesis -/
-example : ∀ l ∈ splitLines "# HELP a_total h\n# TYPE a_total counter\n{\"a b\",x=\"y\"} 1 2\n".toList,
-    blankMetaToken l = false := by decide
-example : ∀ s n, (fun (_ : Str) => some (5 : Int)) s = some n → intDivOverflows n = false := by
-  intro s n h; cases h; decide +kernel
+/-- **termination**: the fuel of the model's loops always suffices -/
+theorem text_parser_no_timeout (legacy : Bool) (pyInt : Str → Option Int) (pyFloat : Str → Option Nat) (input : Str) :
+    textParse legacy pyInt pyFloat input ≠ .error .timeout := by
+  intro h
+  have := safe_textParse legacy pyInt pyFloat input _ h
+  cases this
+
+/-- no exception class other than ValueError ever escapes (no IndexError from `text[0]`/`parts[2]`, no KeyError from
+`labels['__name__']`, no OverflowError from `/ 1000`, no TypeError from unpacking, no AttributeError …) -/
+theorem text_parser_no_other_class (legacy : Bool) (pyInt : Str → Option Int) (pyFloat : Str → Option Nat) (input : Str)
+    (e : PyErr) (h : textParse legacy pyInt pyFloat input = .error e) : e = .valueError :=
+  safe_textParse legacy pyInt pyFloat input e h
+
+/-- non-vacuity: both outcomes occur -/
+example : textParse false (fun _ => none) (fun _ => some 0) "# HELP a h\n# TYPE a gauge\na 1\n".toList =
+    .ok [⟨"a".toList, "h".toList, "gauge".toList, [⟨"a".toList, [], .flt 0, none⟩]⟩] := by rfl
+example : textParse false (fun _ => none) (fun _ => none) "a x\n".toList = .error .valueError := by rfl
 
 -- the label loop in isolation ---------------------------------------------------------------------------------------
 
 /-- `parse_labels` (text mode) terminates and raises only ValueError on every string without an unquoted '}' — the
-strings `_parse_sample` passes (`noRB_label_block`); on `}` alone the real loop does not terminate -/
+strings `_parse_sample` passes (`noRB_label_block`) -/
 theorem parse_labels_total (legacy : Bool) (s : Str) (h : noHit rbChs s false false = true) :
     ∀ e, parseLabels legacy s false = .error e → e = .valueError :=
   parseLabels_safe legacy s h
 
-/-- the excluded point is real: on an unquoted '}' the model's loop runs out of fuel (the Python loop spins) -/
+example : noHit rbChs "a=\"}\",b=\"x\"".toList false false = true := by decide
+
+/-- observation outside the public API: called directly on an unquoted '}', the text-mode loop of `parse_labels` makes no
+progress (the model runs out of fuel; the Python loop spins).  Neither parser passes such a string. -/
 theorem parse_labels_rbrace_spins (legacy : Bool) : parseLabels legacy ['}'] false = .error .timeout := by
   cases legacy <;> rfl
 
--- witnesses: the model raises what the code raises ----------------------------------------------------------------------
+-- regressions of the two repaired defects -------------------------------------------------------------------------------
 
-/-- F8: `'# HELP \xa0 x\n'` → IndexError (whatever `int()`/`float()` are) -/
-theorem f8_help_index_error (legacy : Bool) (pyInt : Str → Option Int) (pyFloat : Str → Option Nat) :
-    textParse legacy pyInt pyFloat "# HELP \u00a0 x\n".toList = .error .indexError := by
-  cases legacy <;> rfl
+/-- F8 regression: `'# HELP \xa0 x\n'` and `'# TYPE \x1c counter\n'` now end in ValueError (were IndexError) -/
+theorem f8_regression (legacy : Bool) (pyInt : Str → Option Int) (pyFloat : Str → Option Nat) :
+    textParse legacy pyInt pyFloat "# HELP \u00a0 x\n".toList = .error .valueError ∧
+    textParse legacy pyInt pyFloat "# TYPE \u001c counter\n".toList = .error .valueError := by
+  cases legacy <;> exact ⟨rfl, rfl⟩
 
-/-- F8 on a TYPE line and with a C0 separator: `'# TYPE \x1c counter\n'` → IndexError -/
-theorem f8_type_index_error (legacy : Bool) (pyInt : Str → Option Int) (pyFloat : Str → Option Nat) :
-    textParse legacy pyInt pyFloat "# TYPE \u001c counter\n".toList = .error .indexError := by
-  cases legacy <;> rfl
-
-example : blankMetaToken "# HELP \u00a0 x".toList = true := by decide
-
-/-- F19: a sample line whose timestamp token is read by `int()` as a huge integer → OverflowError -/
-theorem ts_overflow_error (legacy : Bool) (pyInt : Str → Option Int) (pyFloat : Str → Option Nat) (m : Int)
+/-- F19 regression: a sample line whose timestamp token is read by `int()` as a huge integer now ends in ValueError
+(was OverflowError); the threshold is met by 10^312 and not by the largest finite double times 1000 -/
+theorem ts_overflow_regression (legacy : Bool) (pyInt : Str → Option Int) (pyFloat : Str → Option Nat) (m : Int)
     (h1 : pyInt "1".toList = some 1) (hm : pyInt (intStr m) = some m) (ho : intDivOverflows m = true) :
-    parseSample legacy pyInt pyFloat ("a 1 ".toList ++ intStr m) = .error .overflowError := by
+    parseSample legacy pyInt pyFloat ("a 1 ".toList ++ intStr m) = .error .valueError := by
   have ht : NumTok "1".toList := by decide
   have := parseSample_bare legacy pyInt pyFloat (n := "a".toList) (tok := "1".toList) (by decide) (by decide) ht (some m)
   have e : "a 1 ".toList ++ intStr m = "a".toList ++ ' ' :: valTs "1".toList (some m) := by simp [valTs]
@@ -108,9 +86,9 @@ theorem ts_overflow_error (legacy : Bool) (pyInt : Str → Option Int) (pyFloat 
   have hp := pvt_valTs pyInt pyFloat ht (some m) false
   simp only [Bool.false_eq_true, ↓reduceIte, List.nil_append] at hp
   rw [hp, parseValue_numTok _ _ ht, h1, parseValue_numTok _ _ (intStr_numTok m), hm]
-  simp only [bind, Except.bind, divThousand, ho, ↓reduceIte]
+  have hflag : PromVerif.Generated.TextParse.tsOverflowToValueError = true := rfl
+  simp only [bind, Except.bind, divThousand, ho, hflag, ↓reduceIte]
 
-/-- the overflow threshold is met by 10^312 and not by the largest finite double times 1000 -/
 example : intDivOverflows (10 ^ 312) = true ∧ intDivOverflows ((2 ^ 1024 - 2 ^ 971) * 1000) = false := by
   constructor <;> decide +kernel
 
